@@ -986,7 +986,110 @@ def check_C10(ctx):
                   'ASCII domains; E cases: the same as addresses in four modes; libidn2 2.3.3 is the oracle and the hypotheses the theorems make about it are checked on every conversion',
                   extra_trusted=['libidn2 2.3.3 (IDNA2008 conversion; its accept/reject decision for non-ASCII labels is taken as the definition of "IDNA2008-valid")'])
 
-CHECKS = {'C10': check_C10, 'C05': check_C05, 'C17': check_C17, 'C11': check_C11, 'C13': check_C13, 'C15': check_C15, 'C16': check_C16, 'C19': check_C19, 'C01': check_C01, 'C07': check_C07, 'C08': check_C08, 'C09': check_C09, 'C12': check_C12, 'C03': check_C03, 'C02': check_C02, 'C04': check_C04}
+# ------------------------------------------------------------------ C20
+def getlines(data):
+    out = []; cur = b''
+    for i in range(len(data)):
+        cur += data[i:i + 1]
+        if data[i] == 10:
+            out.append(cur); cur = b''
+    if cur: out.append(cur)
+    return out
+
+def cli_files(rnd, n, big):
+    addr = gens.addr_structured()
+    shapes = [b'', b' ', b'  ', b'\t', b' \t', b'#comment', b'# a@b.c', b' #notcomment@x.com', b'a@b.com', b' a@b.com', b'a@b.com ', b'a@b.com\t', b' a@b.com  ', b'\ta@b.com',
+              b'bad\xff\xfe@x.com', b'\xe2\x82', b'\xc0\x80@x.y', b'\xed\xa0\x80', b'\xf4\x90\x80\x80z', b'a\x01b\x7f@c.d', b'a@b.com\r', b'a\rb@c.com', b'\r', b'a@b\x00c.com',
+              '\u0438@\u043f\u043e\u0447\u0442\u0430.\u0440\u0444'.encode(), 'a@\u4e2d\u56fd.\u4e2d\u56fd'.encode(), b'x' * 3000 + b'@ok.com', b'a@' + b'b' * 2100 + b'.com', b'"' + b' ' * 5000 + b'"@x.org',
+              ('\u00e9' * 1500).encode() + b'@y.com', b'\x01' * 700, b'\xff' * 900]
+    files = []
+    for k in range(n):
+        parts = []
+        for _ in range(rnd.randint(0, 25)):
+            r = rnd.random()
+            body = rnd.choice(shapes) if r < 0.6 else rnd.choice(addr) if r < 0.9 else bytes(rnd.randint(1, 255) for _ in range(rnd.randint(0, 40)))
+            if big and rnd.random() < 0.1:
+                body = bytes(rnd.choice(b'ab.@" \\\xd0\xb0') for _ in range(rnd.randint(2000, 8192)))
+            body = body.replace(b'\n', b'')
+            parts.append(body + rnd.choice([b'\n', b'\n', b'\r\n', b'\r\r\n']))
+        data = b''.join(parts)
+        if rnd.random() < 0.5 and data.endswith(b'\n'):
+            data = data[:-1] if rnd.random() < 0.7 else data[:-1] + rnd.choice([b'\r', b' ', b'x@y.zz'])
+        files.append(data)
+    files += [b'', b'\n', b'\n\n\n', b' \n', b'a@b.com', b'a@b.com\r', b'a@b.com\r\r\n', b'#\n', b'#', b' ', b'\x00\n', b'a@b.com\n\n \n#c\n good@xn--p1ai.com \n']
+    return files
+
+def check_C20(ctx):
+    step_proof(ctx)
+    lib = ctx.snap.lib(san=True)
+    exe = lib.cli()
+    import subprocess
+    files = cli_files(ctx.rnd, 60 if not ctx.thorough() else 600, ctx.thorough())
+    # the model: raw line -> SKIP | trimmed, sanitized
+    raw = [ln for f in files for ln in getlines(f)]
+    clines = ['C %s' % hx(ln) for ln in raw]
+    p = subprocess.run([vlib.model_drv(), ctx.snap.dump() and ctx.snap.table_file, '0', '0', '0', '0'], input=('\n'.join(clines) + '\n').encode(), stdout=subprocess.PIPE)
+    mo = p.stdout.decode().splitlines() if clines else []
+    trimmed = {}
+    for ln, o in zip(raw, mo):
+        trimmed[ln] = None if o == 'SKIP' else tuple(bytes.fromhex(x) if x != '-' else b'' for x in o.split(' '))
+    # the library's decision and message for every trimmed line (default settings), real libidn2 as oracle
+    ts = sorted(set(t[0] for t in trimmed.values() if t is not None))
+    orc = vlib.idn_oracle(gens.domains_of(ts))
+    ml = []
+    for t in ts:
+        i = t.rfind(b'@'); d = t[i + 1:] if i >= 0 else b''
+        rc, a = orc.get(d, (0, b''))
+        ml.append('M %s %d %s 0' % (hx(t), rc, hx(a)))
+    dl = ctx.snap.lib()
+    c_m, _ = vlib.run_both(dl, ctx.snap, [l.replace('M ', 'E 3 1 ', 1) for l in ml])   # also compared with the model below
+    pm = subprocess.run([dl.drv()], input=('\n'.join(ml) + '\n').encode(), stdout=subprocess.PIPE)
+    libres = {}
+    for t, o in zip(ts, pm.stdout.decode().splitlines()):
+        f = o.split(' ')
+        libres[t] = (f[0] == '1', bytes.fromhex(f[1]) if f[1] not in ('-', '~') else b'')
+    nb = 0; evals = 0; outs = []
+    env = dict(os.environ); env.update({'LC_ALL': 'C', 'ASAN_OPTIONS': 'detect_leaks=1:abort_on_error=0', 'UBSAN_OPTIONS': 'print_stacktrace=1:halt_on_error=1'})
+    for k, data in enumerate(files):
+        path = os.path.join(ctx.snap.root, 'cli_%d.txt' % k)
+        open(path, 'wb').write(data)
+        try:
+            r = subprocess.run([exe, path], stdout=subprocess.PIPE, stderr=subprocess.PIPE, env=env, timeout=120)
+        except subprocess.TimeoutExpired:
+            nb += 1; ctx.rep.violation({'kind': 'cli', 'file_hex': data.hex()[:4000], 'explanation': 'bin/eav did not terminate within 120 s'}); continue
+        exp = b''; npass = nfail = 0
+        for ln in getlines(data):
+            t = trimmed[ln]
+            if t is None: continue
+            ok, msg = libres[t[0]]
+            if ok: exp += b'PASS: ' + t[1] + b'\n'; npass += 1
+            else: exp += b'FAIL: ' + t[1] + b'\n      ' + msg + b'\n'; nfail += 1
+        evals += len(getlines(data))
+        outs.append('%d lines, exit %d' % (len(getlines(data)), r.returncode))
+        bad = None
+        if r.returncode != 0: bad = 'exit status %d; stderr: %s' % (r.returncode, r.stderr.decode('utf-8', 'replace')[-600:])
+        elif r.stdout != exp:
+            a, b = r.stdout.split(b'\n'), exp.split(b'\n')
+            i = next((i for i, (x, y) in enumerate(zip(a, b)) if x != y), min(len(a), len(b)))
+            bad = 'stdout differs from (model trimming + library decision) at output line %d: tool %r, expected %r; %d vs %d output lines' % (i, a[i][:120] if i < len(a) else None, b[i][:120] if i < len(b) else None, len(a), len(b))
+        elif ('pass = %d fail = %d' % (npass, nfail)).encode() not in r.stderr: bad = 'summary line does not say pass = %d fail = %d: %r' % (npass, nfail, r.stderr[-200:])
+        if bad and nb < 4:
+            nb += 1
+            ctx.rep.violation({'kind': 'cli', 'file_hex': data.hex() if len(data) < 3000 else data.hex()[:3000] + '...', 'file_len': len(data), 'explanation': bad,
+                               'replay': 'write the bytes to a file and run bin/eav (ASan build) on it'})
+    ctx.rep.evals += evals
+    import hashlib
+    for ln in raw:
+        ctx.rep.nontrivial.add(hashlib.blake2b(ln, digest_size=8).digest())
+    ctx.rep.samples += [{'generator': 'cli-files', 'case': f[:80].hex(), 'implementation': o} for f, o in list(zip(files, outs))[:4]]
+    ctx.rep.gens.append({'generator': 'cli-files', 'cases': len(files), 'lines': len(raw), 'exhaustive': False,
+                         'note': 'files assembled from line shapes {empty, blanks, comment, addresses, 0-8 KiB, ill-formed UTF-8, control bytes, embedded CR/NUL} x {LF, CRLF, CR CR LF} x final newline present/absent/CR'})
+    ctx.rep.exhaustive = False
+    return finish(ctx, rule='each generated file is given to bin/eav (built from /repo/bin with ASan+UBSan+LSan); its stdout must equal, byte for byte, the lines predicted from the model\'s trimming and '
+                  'sanitising of every input line and the library\'s own decision/message for the trimmed line (default settings); exit status 0, no sanitizer report; evaluations = input lines',
+                  extra_trusted=['gcc ASan/UBSan/LSan for the runtime half (memory errors, aborts)', 'libidn2 2.3.3', 'locale C (the tool calls setlocale(LC_ALL, ""))'])
+
+CHECKS = {'C20': check_C20, 'C10': check_C10, 'C05': check_C05, 'C17': check_C17, 'C11': check_C11, 'C13': check_C13, 'C15': check_C15, 'C16': check_C16, 'C19': check_C19, 'C01': check_C01, 'C07': check_C07, 'C08': check_C08, 'C09': check_C09, 'C12': check_C12, 'C03': check_C03, 'C02': check_C02, 'C04': check_C04}
 
 def main():
     if len(sys.argv) >= 3 and sys.argv[1] == 'replay':
